@@ -771,6 +771,9 @@ pub fn append(fs: &Memfs, guard: &mut MemfsGuard, path: &PathBuf) -> (r: RvResul
 //@ body
 
 // ---- MemfsFile::{sync, write, flush, drop}: the same real bodies and contracts as in unit memfs_file, needed here as callees
+// R7: `&buf[..n]` on a byte slice: panics unless n <= len
+#[verifier::external_body]
+pub fn slice_to_u8(b: &[u8], n: usize) -> (r: &[u8]) requires n <= b@.len() ensures r@ == b@.take(n as int) { unimplemented!() }
 // R4: `self.data.write(buf)` is `impl Write for Vec<u8>`.  ASSUMED[io-vec-write]: appends all of buf, returns Ok(buf.len())
 #[verifier::external_body]
 pub fn vec_write(v: &mut Vec<u8>, buf: &[u8]) -> (r: io::Result<usize>)
@@ -810,7 +813,8 @@ impl MemfsFile {
 
 //@ item h_write file=src/sys/fs/memfs/file.rs block="impl io::Write for MemfsFile" fn=write props=C07,C06,C12,C01
 //@ sig fn write(&mut self, buf: &[u8]) -> io::Result<usize>
-//@ rw R4 * ⟦self.data.write(buf)⟧ => ⟦vec_write(&mut self.data, buf)⟧
+//@ rw R4 * re⟦self\.data\.write\(([^()]*(?:\([^()]*\))?[^()]*)\)⟧ => ⟦vec_write(&mut self.data, \1)⟧
+//@ rw R7 * re⟦&buf\[\.\.([^\]]+)\]⟧ => ⟦slice_to_u8(buf, \1)⟧
     pub fn write(&mut self, buf: &[u8]) -> (r: io::Result<usize>)
         ensures r is Ok, r->Ok_0 == buf@.len(),
                 final(self).data@ == old(self).data@ + buf@,     //@ clause write.appends_all [C07,C06,C01]
